@@ -13,6 +13,14 @@ for ofc in (True, False):
     frontend.load(overflow_checks=ofc)
 replay.build('dev'); replay.build('release')
 print('front end + runner built')
+# C16: serde (+derive) for the nightly toolchain, the crate's MIR with the serde feature, and the native RON runner
+frontend.load(overflow_checks=True, features='serde')
+import serde_replay
+for prof in ('dev', 'release'):
+    exe, msg = serde_replay.build(prof)
+    if exe is None:
+        raise SystemExit('serde runner build failed: %s' % msg)
+print('serde front end + RON runner built')
 PY
 python3-vt mirsym/validate.py | tail -3
 python3-vt mirsym/validate_models.py | tail -5
